@@ -139,10 +139,48 @@ fn shape_hash(p: &[PushProgram]) -> u64 {
     h.finish()
 }
 
+thread_local! {
+    /// which instruction stands for the leaf symbol I0: 0 = an integer literal carrying its
+    /// position; k > 0 = entry (position + k - 1) of `leaf_catalog()`
+    static LEAF: std::cell::Cell<usize> = const { std::cell::Cell::new(0) };
+    static CATALOG: Vec<PushInstruction> = leaf_catalog();
+}
+
+/// Every instruction of the repository that opens no block (each enum-listed variant, the print
+/// constants, input variables, the literals), and the exec literals whose *payload* is code that
+/// would open blocks if it were a gene itself: a literal is one leaf whatever it carries.
+pub fn leaf_catalog() -> Vec<PushInstruction> {
+    use crate::vm::{all_instructions, exec_push, input_instructions, literal_pushes};
+    let mut v: Vec<PushInstruction> = all_instructions().into_iter().filter(|i| ref_opens(i) == 0).collect();
+    v.extend(input_instructions());
+    v.extend(literal_pushes(true));
+    let ins = |e: ExecInstruction| PushProgram::Instruction(e.into());
+    let payloads = vec![
+        ins(ExecInstruction::when()),
+        ins(ExecInstruction::unless()),
+        ins(ExecInstruction::dup_block()),
+        ins(ExecInstruction::if_else()),
+        ins(exec_variant("Noop")),
+        PushProgram::Block(vec![ins(ExecInstruction::when())]),
+        PushProgram::Block(vec![ins(ExecInstruction::if_else()), PushProgram::Block(vec![]), PushProgram::Block(vec![])]),
+        ins(exec_push(ins(ExecInstruction::if_else()))),
+        ins(exec_push(ins(exec_push(ins(ExecInstruction::when()))))),
+    ];
+    v.extend(payloads.into_iter().map(|p| exec_push(p).into()));
+    v
+}
+
 fn symbol(sym: usize, pos: usize) -> PushGene {
     match sym {
         0 => PushGene::Close,
-        1 => PushGene::Instruction(PushInstruction::push_int(pos as i64)),
+        1 => {
+            let k = LEAF.with(|l| l.get());
+            if k == 0 {
+                PushGene::Instruction(PushInstruction::push_int(pos as i64))
+            } else {
+                PushGene::Instruction(CATALOG.with(|c| c[(pos + k - 1) % c.len()].clone()))
+            }
+        }
         2 => PushGene::Instruction(ExecInstruction::dup_block().into()),
         3 => PushGene::Instruction(ExecInstruction::when().into()),
         4 => PushGene::Instruction(ExecInstruction::unless().into()),
@@ -160,6 +198,18 @@ fn label(code: &[usize]) -> String {
     // run-length encoded beyond 24 genes (deep-nesting family)
     let names = ["}", "I0", "DupBlock{", "When{", "Unless{", "IfElse{{"];
     if code.len() <= 24 {
+        let k = LEAF.with(|l| l.get());
+        if k > 0 {
+            return genes_of(code)
+                .iter()
+                .zip(code)
+                .map(|(g, s)| match g {
+                    PushGene::Instruction(i) if *s == 1 => instr_name(i),
+                    _ => names[*s].to_string(),
+                })
+                .collect::<Vec<_>>()
+                .join(" ");
+        }
         return code.iter().map(|s| names[*s]).collect::<Vec<_>>().join(" ");
     }
     let mut out: Vec<String> = vec![];
@@ -194,7 +244,11 @@ fn label(code: &[usize]) -> String {
 pub fn check_genome(code: &[usize]) -> (Option<(String, String)>, Option<Vec<PushProgram>>) {
     {
         let c = code.to_vec();
-        mcx::watch::enter(Box::new(move |_| (format!("parse/hang/{}", label(&c)), format!("parsing [{}]", label(&c)), json!({"check":"C05","code": c}))));
+        let leaf = LEAF.with(|l| l.get());
+        mcx::watch::enter(Box::new(move |_| {
+            LEAF.with(|l| l.set(leaf));
+            (format!("parse/hang/{}", label(&c)), format!("parsing [{}]", label(&c)), json!({"check":"C05","code": c, "leaf": leaf}))
+        }));
     }
     let r = check_genome_inner(code);
     mcx::watch::leave();
@@ -425,6 +479,52 @@ fn drop_iteratively(p: Vec<PushProgram>) {
     }
 }
 
+/// The leaf pass: the same enumeration to a smaller length, with the leaf symbol standing for every
+/// instruction of the catalog in every position (rotation k puts entry (position + k - 1) there).
+fn leaf_pass(run: &mut Run) {
+    let n_max = if run.quick() { 6 } else { 8 };
+    let cat = leaf_catalog();
+    let results = mcx::par_map(cat.len(), |k| {
+        LEAF.with(|l| l.set(k + 1));
+        let mut count = 0u64;
+        let mut viols: Vec<(String, String, Value)> = vec![];
+        fn go(cur: &mut Vec<usize>, n_max: usize, f: &mut impl FnMut(&[usize])) {
+            if cur.contains(&1) {
+                f(cur);
+            }
+            if cur.len() == n_max {
+                return;
+            }
+            for s in 0..NSYM {
+                cur.push(s);
+                go(cur, n_max, f);
+                cur.pop();
+            }
+        }
+        go(&mut vec![], n_max, &mut |code: &[usize]| {
+            count += 1;
+            let (v, _) = check_genome(code);
+            if let Some((key, what)) = v {
+                if viols.len() < 4 {
+                    viols.push((key.replacen("parse/", "parse/leaf/", 1), what, json!({"check":"C05","code": code, "leaf": k + 1})));
+                }
+            }
+        });
+        LEAF.with(|l| l.set(0));
+        (count, viols)
+    });
+    let mut n = 0u64;
+    for (c, viols) in results {
+        n += c;
+        for (k, w, r) in viols {
+            run.violation(k, w, r);
+        }
+    }
+    run.evaluations += n;
+    run.bound("leaf_pass_max_genome_len", json!(n_max));
+    run.note("leaf_catalog", json!({"instructions": cat.len(), "genomes_checked": n, "examples": cat.iter().rev().take(9).map(instr_name).collect::<Vec<_>>()}));
+}
+
 pub fn run(run: &mut Run) {
     let n_max = if run.quick() { 7 } else { 10 };
     // shard by the first three symbols
@@ -509,6 +609,7 @@ pub fn run(run: &mut Run) {
             run.violation(k, w, r);
         }
     }
+    leaf_pass(run);
     deep_family(run);
     long_flat(run);
     run.states = shapes.len() as u64;
@@ -520,7 +621,7 @@ pub fn run(run: &mut Run) {
     run.note("max_nesting_depth_enumerated", json!(depth));
     run.assumptions = vec![
         "PlushyRef (explicit stack of open blocks) is the meaning of the property's parsing rules".into(),
-        "instruction identity does not matter beyond the number of blocks it opens".into(),
+        "beyond the leaf pass (every block-free instruction of the repository and exec literals of block-opening code in every position, genomes up to leaf_pass_max_genome_len), instruction identity does not matter beyond the number of blocks it opens".into(),
     ];
     run.sample(json!({"genome": label(&[5, 1, 0, 0, 1]), "parsed": plushy_ref(&genes_of(&[5, 1, 0, 0, 1])).iter().map(prog_compact).collect::<Vec<_>>()}));
     run.sample(json!({"genome": label(&[0, 3, 2]), "parsed": plushy_ref(&genes_of(&[0, 3, 2])).iter().map(prog_compact).collect::<Vec<_>>()}));
@@ -531,6 +632,7 @@ pub fn replay(v: &Value) -> bool {
         .as_array()
         .map(|a| a.iter().map(|x| x.as_u64().unwrap_or(0) as usize).collect())
         .unwrap_or_default();
+    LEAF.with(|l| l.set(v["leaf"].as_u64().unwrap_or(0) as usize));
     println!("genome: {}", label(&code));
     let genes = genes_of(&code);
     println!(
